@@ -10,7 +10,13 @@
 (* hidden linearisation points (Lin steps); a history is accepted iff the search can consume   *)
 (* all of its lines.  Several histories are concatenated ("reset" lines).  Acceptance uses the *)
 (* high-water mark idiom (TLCSet/TLCGet register 1, single worker).                            *)
+(* With CheckN the end of an acq also carries the in-flight sample the strategy emitted for   *)
+(* that call (n, -1 if none was seen): it must be the count at the linearisation point - the  *)
+(* count including the new token for a grant, the count that caused the refusal otherwise     *)
+(* (C20: in-flight samples equal the in-flight count at the admission decision).              *)
 EXTENDS Integers, Sequences, FiniteSets, TLC, Json, IOUtils
+
+CONSTANT CheckN
 
 Log == ndJsonDeserialize(IOEnv.VERIF_TRACE)
 
@@ -31,13 +37,13 @@ ReadBegin ==
   /\ l <= Len(Log) /\ Log[l].t = "b"
   /\ l' = l + 1
   /\ open' = [i \in Ids \cup {Log[l].id} |->
-                IF i = Log[l].id THEN [kind |-> Log[l].kind, v |-> Log[l].v, lin |-> FALSE, res |-> FALSE] ELSE open[i]]
+                IF i = Log[l].id THEN [kind |-> Log[l].kind, v |-> Log[l].v, lin |-> FALSE, res |-> FALSE, cnt |-> -1] ELSE open[i]]
   /\ UNCHANGED <<held, limit, maxForce>>
 
 Lin(i) ==
   /\ ~open[i].lin
   /\ CASE open[i].kind = "acq" ->
-            /\ open' = [open EXCEPT ![i].lin = TRUE, ![i].res = held < limit]
+            /\ open' = [open EXCEPT ![i].lin = TRUE, ![i].res = held < limit, ![i].cnt = IF held < limit THEN held + 1 ELSE held]
             /\ held' = IF held < limit THEN held + 1 ELSE held
             /\ UNCHANGED <<limit, maxForce>>
        [] open[i].kind = "rel" ->
@@ -58,6 +64,7 @@ ReadEnd ==
   /\ LET i == Log[l].id IN
      /\ i \in Ids /\ open[i].lin
      /\ open[i].kind = "acq" => open[i].res = Log[l].ok
+     /\ (CheckN /\ open[i].kind = "acq" /\ Log[l].n >= 0) => open[i].cnt = Log[l].n
      /\ open' = [j \in Ids \ {i} |-> open[j]]
   /\ l' = l + 1
   /\ UNCHANGED <<held, limit, maxForce>>
